@@ -120,6 +120,14 @@ CHECKS["C20"] = (
     "DESIGN.md section 4, C20",
 )
 
+CHECKS["C19"] = (
+    "E4-config-enumerator+E3-thread-scheduler",
+    "exhaustive trigger enumeration against the eager twin, plus stateless preemption-bounded exploration of real threads performing concurrent first uses under a controlled scheduler with cooperative locks",
+    "(a) for 10 class bodies (Attr / dataclasses.field declarations, default_factory, init/repr/compare flags, key + preparers, inheritance from a not-yet-bootstrapped parent, __new__ defined / inherited, self-referential and nested types, invalidated_by) every first trigger (instantiation with and without keywords, __spec_class__, __dataclass_fields__, dataclasses.fields, instantiation / metadata through a subclass, metadata-then-helper) x an optional second use on a fresh lazily decorated class is compared with the same body decorated bootstrap=True (metadata, per-attribute flags, names and signatures of every generated method, class-level defaults, invalidation map, instances). (b) per (body, trigger tuple) every schedule with <= 1 preemption (quick; thorough: bound 2 on the small bodies, bound 1 with 3 threads and with every library file as scheduling file) of 2-3 real threads each performing a first use, scheduling points = every executed line of spec_class.py and methods/base.py, fresh classes per execution (~1e4 schedules quick): no thread may raise, every thread's own observation and the final class description must equal the sequential eager result. Random schedules are run in addition and reported separately.",
+    "Library RLock replaced by a cooperative re-entrant lock of equal semantics; source-line preemption granularity in the scheduling files (other code atomic); GIL-mode CPython 3.12; __new__ itself is not compared.",
+    "DESIGN.md section 4, C19",
+)
+
 ENGINES = [
     {"name": "E1-explicit-state", "path": "mc/common.py, props/*.py (explore)", "serves_properties": [],
      "kind_free_text": "breadth-first explicit-state search over the real transition function; a state is the shortest operation history that reaches it, rebuilt by replay; canonical-form deduplication; lock-step reference model"},
